@@ -11,6 +11,13 @@ Theorem C13_rate_spec : forall t d l,
 Proof. exact rate_spec. Qed.
 Print Assumptions C13_rate_spec.
 
+(** ... in a crowded pipe: n transfers of equal limit that together exceed the throughput get t / n each, for every n *)
+Theorem C13_equal_shares : forall t l (n : positive),
+  0 < t -> 0 < l -> t < inject_Z (Zpos n) * l ->
+  rate_of (Fin t) (inject_Z (Zpos n) * l) l == t / inject_Z (Zpos n).
+Proof. exact equal_shares. Qed.
+Print Assumptions C13_equal_shares.
+
 (** every state reachable by any history satisfies the invariant ... *)
 Theorem C13_reachable_inv : forall T ops,
   Tpos T -> Forall op_ok ops -> Inv (fold_left apply ops (init T)).
